@@ -170,7 +170,7 @@ impl Hooks for SimHooks {
             }
         }
         *self.shared.probes.lock().unwrap().entry(id).or_insert(0) += 1;
-        if id.starts_with("loss.") {
+        if id.starts_with("loss") {
             self.shared.keyed.lock().unwrap().insert((id, _arg));
         }
     }
